@@ -216,6 +216,9 @@ func (f *remoteWrapper) clampToGlobal(limitItem proxyv1alpha1.RateLimitItemConfi
 		limitItem.TokenBucket.QPS = clamp(limitItem.TokenBucket.QPS, local.GlobalTokenBucket.QPS)
 		limitItem.TokenBucket.Burst = clamp(limitItem.TokenBucket.Burst, local.GlobalTokenBucket.Burst)
 	}
+	// the schema's own strategy counts, not the one the answer names: a differing value would make
+	// Sync rebuild the limiter and forget the requests in flight
+	limitItem.Strategy = local.Strategy
 	return limitItem
 }
 
